@@ -55,7 +55,9 @@ impl Space for Sweep {
         let mut r = CaseResult::new();
         r.key = format!("{i}");
         let _ = &self.dir;
-        let mut req: Vec<String> = (0..len).map(|k| name((k * 13) % 1100)).collect(); // includes duplicates for len > 1100/13
+        // includes duplicates for len > 1100/13; every fifth request spells its name in upper case with forward
+        // slashes (a sequential read resolves every ASCII-case / slash spelling)
+        let mut req: Vec<String> = (0..len).map(|k| if k % 5 == 2 { name((k * 13) % 1100).to_ascii_uppercase().replace('\\', "/") } else { name((k * 13) % 1100) }).collect();
         if len > 0 {
             let pos = match miss {
                 "first" => Some(0),
